@@ -1,5 +1,5 @@
 CONSTANTS
-  Children = {"ca1", "ca2"}
+  Children = {"ca1", "ca2", "rc"}
   ReqNames = {"i:ka", "i:kb", "i:kc", "i:kd", "i:ke", "i:kf", "r:ka", "r:kb", "r:kc", "r:kd", "r:ke", "r:kf"}
   MaxNonce = 99
   MaxMsgs = 999
